@@ -96,8 +96,12 @@ func ShowUObj(o *UObj) string {
 	if o.ConstVal != nil {
 		cv = Hex(*o.ConstVal)
 	}
-	return fmt.Sprintf("%s|%s/%s|e=%s|k=%s|u=%s|l=%d|m=%s|M=%s|s=%s|tp=%s|c=%s", o.Kind, Hex(o.Pkg), Hex(o.Name), uref(o.Elem), uref(o.Key), uref(o.Under), o.Len,
-		strings.Join(ms, ","), umap(o.Methods), sig, umap(o.TypeParams), cv)
+	flags := "-"
+	if o.Kind != "Unknown" && o.Kind != "" && o.Kind != "DeclarationOf" {
+		flags = B01(o.Prim) + B01(o.Assign) + B01(o.AnonStruct)
+	}
+	return fmt.Sprintf("%s|%s/%s|e=%s|k=%s|u=%s|l=%d|m=%s|M=%s|s=%s|tp=%s|c=%s|f=%s", o.Kind, Hex(o.Pkg), Hex(o.Name), uref(o.Elem), uref(o.Key), uref(o.Under), o.Len,
+		strings.Join(ms, ","), umap(o.Methods), sig, umap(o.TypeParams), cv, flags)
 }
 
 // Dump renders the snapshot exactly like lean/Gengo/Driver/Universe.lean's `dump`.
